@@ -366,6 +366,84 @@ func faultScenario(p0 faultParams) func() {
 	}
 }
 
+// oldStreamScenario: call C waits for a reply of node 1 (its handler never answers). The node's receiver is
+// outside its RecvMsg - parked in the delivery of a reply to a stream call whose quorum function is blocked -
+// when the stream is reset. Two one-way messages follow (the first write fails, the second makes the sender
+// re-create the stream). Then the quorum function continues. Whoever replaces the stream, C must be told
+// that its connection broke.
+func oldStreamScenario(kind string, oneWays int) func() {
+	return func() {
+		w := world.New(world.Opts{N: 1, Window: 4})
+		if w.Cfg == nil {
+			return
+		}
+		tokC, tokA := 0, 0
+		w.Handle = func(h *world.HCtx) world.Reply {
+			switch h.Tok {
+			case tokC:
+				h.Release()
+				world.Block()
+			case tokA:
+				h.Release()
+				for i := 0; i < 3; i++ {
+					if h.Send(i, 0) != nil {
+						break
+					}
+				}
+			}
+			return world.Reply{}
+		}
+		c := w.NewCall(kind)
+		if kind == "GRPCCall" {
+			c.Node = 1
+		}
+		c.Ctx = context.Background()
+		c.Verdict = func(inv *world.QFInv) { inv.Quorum = true }
+		tokC = c.Tok
+		w.Start(c)
+		mc.Quiesce()
+		a := w.NewCall("CorrectableStream")
+		tokA = a.Tok
+		first := true
+		a.Verdict = func(inv *world.QFInv) {
+			if first {
+				first = false
+				w.Wait("qf")
+			}
+			inv.Level = len(a.QF) + 1
+		}
+		w.Start(a)
+		mc.Quiesce() // the receiver is parked on the full reply channel, outside RecvMsg
+		w.FW.Reset(world.Addr(1))
+		mc.Quiesce()
+		for i := 0; i < oneWays; i++ {
+			x := w.NewCall("Unicast")
+			x.Node, x.NoSendWaiting = 1, true
+			x.Ctx = context.Background()
+			w.Start(x)
+			mc.Quiesce()
+		}
+		w.Open("qf")
+		mc.Quiesce()
+		for i := 0; i < 4 && mc.FireTimers(nil) > 0; i++ {
+			mc.Quiesce()
+		}
+		a.Cancel(context.Canceled)
+		mc.Quiesce()
+		name := fmt.Sprintf("fault/%s/reset-while-receiver-delivers/one-ways=%d", kind, oneWays)
+		done := c.Returned
+		if world.IsAsync(kind) {
+			done = c.Returned && c.Fut.Done()
+		}
+		if !done {
+			fail("C07/left-waiting", classOf(kind)+"/reset-while-receiver-delivers lock-waiters="+world.LockWaiters(), "%s: the call is still waiting for node 1 although the stream its request was written to has been reset and replaced (routers: %s)", name, routerCounts(w))
+			mc.Outcome("left-waiting")
+			return
+		}
+		mc.Outcome("completed")
+	}
+}
+
 func routerCounts(w *world.W) string {
 	var s []string
 	for id := 1; id <= w.O.N; id++ {
@@ -376,6 +454,11 @@ func routerCounts(w *world.W) string {
 
 func faultInstances(tier string) []Instance {
 	var out []Instance
+	for _, kind := range []string{"GRPCCall", "QuorumCall", "QuorumCallAsync"} {
+		for _, ow := range []int{1, 2} {
+			out = append(out, Instance{Name: fmt.Sprintf("fault/%s/reset-while-receiver-delivers/one-ways=%d", kind, ow), Bound: 2, Root: oldStreamScenario(kind, ow)})
+		}
+	}
 	faults := []string{"down", "crash", "reset", "restart", "crash-queued", "reset-queued", "crash-queued+slow-stream", "err-Unknown", "err-NotFound", "err-Internal", "err-Unavailable", "err-Canceled"}
 	kinds := []string{"QuorumCall", "QuorumCallAsync"}
 	if thorough(tier) {
@@ -452,7 +535,7 @@ func faultInstances(tier string) []Instance {
 
 func init() {
 	register(&Check{ID: "C07",
-		Rule:        "fault enumeration: n in {2,3} x failing subset (minority, majority, all) x failure kind {down at creation, crash, stream reset, crash+restart, crash / reset while the request is still queued behind a sender blocked on a full window (also with a stream call whose quorum function is blocked pending on the failing node), handler error with code Unknown/NotFound/Internal/Unavailable/Canceled} x threshold {healthy, healthy+1} x healthy nodes answering before / after the fault x fault position {before the call, adversary fault thread placed by the explorer at every instant within the deviation bound} x history {none, two earlier stream resets of the failing node healed while idle} x other traffic {none, a concurrent RPC to the failing node} x {quorum call, async (+correctable, combo in thorough)}; armed back-off timers are fired to a horizon of 4 rounds before the progress oracle; oracle: success iff the healthy replies satisfy the quorum function, Incomplete names every failing node exactly once with the handler's status or an unavailable-type error, the quorum function never sees a failed node, no call is left waiting for a node whose connection broke (unless that node received the request on a stream created after the fault); an outcome is (instance, result class)",
+		Rule:        "fault enumeration: n in {2,3} x failing subset (minority, majority, all) x failure kind {down at creation, crash, stream reset, crash+restart, crash / reset while the request is still queued behind a sender blocked on a full window (also with a stream call whose quorum function is blocked pending on the failing node), handler error with code Unknown/NotFound/Internal/Unavailable/Canceled} x threshold {healthy, healthy+1} x healthy nodes answering before / after the fault x fault position {before the call, adversary fault thread placed by the explorer at every instant within the deviation bound} x history {none, two earlier stream resets of the failing node healed while idle} x other traffic {none, a concurrent RPC to the failing node}; plus a family in which the stream is reset while the receiver is outside RecvMsg (parked in a delivery) and one-way messages make the sender notice and re-create the stream first x {quorum call, async (+correctable, combo in thorough)}; armed back-off timers are fired to a horizon of 4 rounds before the progress oracle; oracle: success iff the healthy replies satisfy the quorum function, Incomplete names every failing node exactly once with the handler's status or an unavailable-type error, the quorum function never sees a failed node, no call is left waiting for a node whose connection broke (unless that node received the request on a stream created after the fault); an outcome is (instance, result class)",
 		Gen:         faultInstances,
 		Assumptions: []string{"a node with a connection fault never answers (its handler blocks), so it can only contribute an error", "crashes drop in-flight frames (fakegrpc); eventual completion is decided after firing the armed library timers 4 rounds"},
 	})
